@@ -1,5 +1,6 @@
 use super::tag::{SyntheticTag, TagInner};
-use super::{utc_timestamp, Annotation, Status, Tag, Timestamp};
+use super::time::try_utc_timestamp;
+use super::{Annotation, Status, Tag, Timestamp};
 use crate::depmap::DependencyMap;
 use crate::errors::{Error, Result};
 use crate::storage::TaskMap;
@@ -206,13 +207,14 @@ impl Task {
     pub fn get_annotations(&self) -> impl Iterator<Item = Annotation> + '_ {
         self.data.iter().filter_map(|(k, v)| {
             if let Some(ts) = k.strip_prefix("annotation_") {
-                if let Ok(ts) = ts.parse::<i64>() {
+                // note that invalid "annotation_*" are ignored, including those with an
+                // integer that is not a valid time
+                if let Some(entry) = ts.parse::<i64>().ok().and_then(try_utc_timestamp) {
                     return Some(Annotation {
-                        entry: utc_timestamp(ts),
+                        entry,
                         description: v.to_owned(),
                     });
                 }
-                // note that invalid "annotation_*" are ignored
             }
             None
         })
@@ -550,10 +552,9 @@ impl Task {
     /// timestamp. Otherwise, a correctly parsed Timestamp is returned.
     pub fn get_timestamp(&self, property: &str) -> Option<Timestamp> {
         if let Some(ts) = self.data.get(property) {
-            if let Ok(ts) = ts.parse() {
-                return Some(utc_timestamp(ts));
-            }
-            // if the value does not parse as an integer, default to None
+            // if the value does not parse as an integer, or the integer is not a valid time,
+            // default to None
+            return ts.parse().ok().and_then(try_utc_timestamp);
         }
         None
     }
